@@ -49,6 +49,7 @@ let cksum (l : n list) : int =
   List.fold_left (fun h x -> (((h lxor (int_of_n x)) * 16777619) land 0xFFFFFFFF)) 2166136261 l
 
 let dirty = n_of_hex "a5a5a5a5a5a5a5a5"
+let dirty2 = n_of_hex "5a5a5a5a5a5a5a5a"
 let initb = n_of_int 0xEE
 let rec repeat x n = if n <= 0 then [] else x :: repeat x (n - 1)
 
@@ -66,12 +67,13 @@ let pieces f (b : bm) : n list list option =
 
 (* parse result as (rc, abstract set) *)
 type pr = Set of bset | Fail | Oobr | Assertr
-let parse f (s : n list) : pr =
+let parse_d dirty f (s : n list) : pr =
   match f with
   | 'h' -> (match parse_hwloc dirty s with Ok (PSet b) -> Set (abs b) | Ok PFail -> Fail | Ok PAssert -> Assertr | Oob -> Oobr)
   | 't' -> (match parse_taskset dirty s with Ok (PSet b) -> Set (abs b) | Ok PFail -> Fail | Ok PAssert -> Assertr | Oob -> Oobr)
   | _ -> (match parse_list s with Ok (Some b) -> Set b | Ok None -> Fail | Oob -> Oobr)
 
+let parse = parse_d dirty
 let sample_len needed l = l <= 2 || l >= needed - 1 || l = needed / 2 || l = 8 || l = 11
 
 let do_print mode (b : bm) =
@@ -113,7 +115,7 @@ let do_parse f (s : n list) =
   match parse f s with
   | Oobr -> Printf.printf "s %c OOB\n" f
   | Assertr -> Printf.printf "s %c ASSERT\n" f
-  | Fail -> Printf.printf "s %c -1 0 0 1\n" f
+  | Fail -> Printf.printf "s %c -1 0 0 1 1\n" f
   | Set r ->
     let (inf, ws) = canon r in
     let b = { bm_words = ws; bm_inf = inf } in
@@ -121,7 +123,8 @@ let do_parse f (s : n list) =
       match pieces f b with
       | None -> false
       | Some ps -> (match parse f (List.concat ps @ [N0]) with Set r2 -> canon r2 = canon r | _ -> false) in
-    Printf.printf "s %c 0 %s %d\n" f (canon_string r) (if stable then 1 else 0)
+    let det = (match parse_d dirty2 f s with Set r3 -> canon r3 = canon r | _ -> false) in
+    Printf.printf "s %c 0 %s %d %d\n" f (canon_string r) (if stable then 1 else 0) (if det then 1 else 0)
 
 let do_strto base (s : n list) =
   let u = match strtoul s N0 (n_of_int base) with Ok (v, e) -> Printf.sprintf "%s %d" (hex_of_n v) (int_of_n e) | Oob -> "OOB" in
